@@ -9,7 +9,7 @@ from vmm.gen import frames
 
 ID = 'C19'
 RULE = ('Hypothesis flat experiment frames: 2..12 geos over both groups (+ excluded geos in the colab layout), n_pre 8..40, '
-        'test and cooldown periods, planted noisy geos (independent noise or constant series, when >= 5 geos), planted '
+        'test and cooldown periods, planted noisy geos (independent noise or constant series, when >= 5 geos), excluded geos with 3-7 days more history than the assigned ones, planted '
         'outlier cell (+50..500 on one date), custom column names / group and period labels, target given or defaulted, '
         'shuffled rows; in half of the cases the diagnostics object had already been fitted to another frame. Non-trivial = >= 4 geos (noisy-geo detection active) and (>= 1 noisy geo or >= 1 outlier date '
         'reported); distinct by spec hash.')
@@ -112,7 +112,9 @@ def run(spec):
       viol.append(('C19:screened-data-columns', det))
     # analysis series = per-date totals of the screened data
     an = d.get_analysis_data()
-    dates = sorted(set(want[names['key_date']]))
+    # (a date on which neither group has a row - e.g. extra history of excluded geos - has no totals and no entry)
+    in_groups = want[names['key_group']].isin([lab['group_control'], lab['group_treatment']])
+    dates = sorted(set(want[names['key_date']][in_groups.values]))
     grp = want[names['key_group']]
     g = want[[names['key_date'], names['key_response']]]
     xs = {}
